@@ -303,3 +303,10 @@ def circle_square_overflow(case, tag, event):
     return bool(vals) and 2 * max(vals) > lim
 
 KNOWN_CLASSES["circle_square_overflow"] = circle_square_overflow
+
+def refine_f32_locate_panic(case, tag, event):
+    """refine() on an f32 triangulation panics with "Failed to locate position": the walk that locates a circumcentre does not terminate within its step limit"""
+    return (tag == "panic" and event is not None and "Failed_to_locate_position" in event and case.scalar == "f32"
+            and bool(case.ops) and case.ops[-1].split()[0] == "refine")
+
+KNOWN_CLASSES["refine_f32_locate_panic"] = refine_f32_locate_panic
